@@ -29,7 +29,7 @@ ITEMS_ALT = {
 }
 
 
-def universe(fd, lengths: dict, typed=True, rng=None):
+def universe(fd, lengths: dict, typed=True, rng=None, twin_names=False):
     """dict letter -> Dimension with the given number of items.
     With rng: the items are a random selection in random order from a larger pool, so that within one process the same
     (name, letter, length) comes with different labels and orders (anything remembered per name/letter/length would show)."""
@@ -40,6 +40,11 @@ def universe(fd, lengths: dict, typed=True, rng=None):
         ls = list(lengths)
         for a_, b_ in zip(ls, [ls[j] for j in rng.permutation(len(ls))]):
             names[a_] = NAMES[b_]
+    if twin_names and rng is not None and len(lengths) > 1 and rng.random() < 0.15:
+        # two dimensions of one NAME under two letters (origin region / destination region): the letter is what identifies a dimension
+        ls = list(lengths)
+        j_, k_ = (int(q) for q in rng.permutation(len(ls))[:2])
+        names[ls[j_]] = names[ls[k_]]
     for l, n in lengths.items():
         kw = {}
         if typed and DTYPES.get(l) is not None:
